@@ -1,5 +1,6 @@
 import H3.Lemmas.C04
 import H3.Lemmas.Setup
+import H3.Drv.C04
 /-! # C04 — control and unidirectional stream rules are enforced with the right error
 
 Property theorems only; vocabulary and proofs are in `H3/Lemmas/C04.lean`.
@@ -139,18 +140,37 @@ example : firstErr { role := .server } {} [.uni 2 (.kind .control), .uni 6 (.kin
     .item (.frame (.goaway 0))] = none := by decide +kernel
 
 
-/-- **Where the property is silent: server push.**  `Spec.ControlRules.verdictRfc` is the table with
-    RFC 9114's demands also for the rules of server push, which the property's text does not name
-    (reading R-04b): it differs from the table the theorems above judge by only for a push stream,
-    CANCEL_PUSH, and MAX_PUSH_ID sent to a server; the oracle state it leads to is always the same.
-    Hence on every history without these three events `C04_control_machine` is conformance to RFC 9114
-    by the letter. -/
+/-- **Where the property is silent: server push, and the closing of a peer QPACK stream.**
+    `Spec.ControlRules.verdictRfc` is the table with the RFCs' demands also where the property's text
+    names no rule (readings R-04b, R-04e): it differs from the table the theorems above judge by only
+    for a push stream, CANCEL_PUSH, MAX_PUSH_ID sent to a server — the rules of server push — and for
+    the closing of the peer's QPACK encoder / decoder stream (RFC 9204 §4.2: H3_CLOSED_CRITICAL_STREAM;
+    the property names the control stream only); the oracle state it leads to is always the same.
+    Hence on every history without these four events `C04_control_machine` is conformance to RFC 9114
+    by the letter.  (The name is kept for the references to it; the fourth difference was added by the
+    second audit and is part of the statement.) -/
 theorem C04_rfc_table_differs_only_on_push (server : Bool) (sp : St) (e : Ev) :
     verdictRfc server sp e = verdict server sp e ∨
-    e = .stream .push ∨ (∃ id, e = .ctl (.cancelPush id)) ∨ (∃ id, e = .ctl (.maxPushId id) ∧ server = true) :=
+    e = .stream .push ∨ (∃ id, e = .ctl (.cancelPush id)) ∨ (∃ id, e = .ctl (.maxPushId id) ∧ server = true) ∨
+    e = .qpackClosed :=
   rfc_table_differs server sp e
 
--- … and on those three the code does depart from the letter (server push is not implemented: the
+/-- **The closing of a peer QPACK stream (reading R-04e).**  The property's table does not constrain it
+    (no error, or H3_CLOSED_CRITICAL_STREAM — never another code), the RFC table demands
+    H3_CLOSED_CRITICAL_STREAM (RFC 9204 §4.2), and neither changes the oracle's state. -/
+theorem C04_qpack_closure_verdicts (server : Bool) (sp : St) :
+    verdict server sp .qpackClosed = (.may [0x0104], sp) ∧
+    verdictRfc server sp .qpackClosed = (.must [0x0104], sp) := by
+  constructor <;> rfl
+
+-- the code: the peer's QPACK streams are stored and never read, so their closing is no input of the
+-- machine at all (`In` has no such constructor; engine `ctl`: `o6 s6:02 f6` ⇒ no error) — accepted by
+-- `may`, refused by the RFC table (NOTE line of every run)
+example : accepts (verdict true {} .qpackClosed).1 none ∧ accepts (verdict true {} .qpackClosed).1 (some 0x0104) ∧
+    ¬ accepts (verdict true {} .qpackClosed).1 (some 0x0105) ∧ ¬ accepts (verdictRfc true {} .qpackClosed).1 none := by
+  simp [accepts, verdict, verdictRfc, H3_CLOSED_CRITICAL_STREAM]
+
+-- … and on the three of server push the code does depart from the letter (server push is not implemented: the
 -- arms carry `//= type=TODO` citations): a push stream is dropped without an error by either role
 -- (§6.2.2: H3_STREAM_CREATION_ERROR at a server; §4.6: H3_ID_ERROR at a client that never sent
 -- MAX_PUSH_ID), a server ignores CANCEL_PUSH and a MAX_PUSH_ID that goes down (§7.2.3, §7.2.7:
@@ -387,5 +407,79 @@ example : clientAcceptBi {} (.err (.appClose 0x100)) =
     ({ handled := some (.remote (.appClose 0x100)), closes := [] }, some (.remote (.appClose 0x100))) := by decide
 
 end faults
+
+/-! ## The driver's oracle: what a RESET of the control stream may overtake (reading R-04d) -/
+
+section overtaking
+open H3.Drv.C04 H3.Spec.ControlRules
+
+/-- **A RESET overtakes only what the endpoint had not looked at.**  `overtaken isReset x r` is what
+    the driver's oracle (`ctlStep`, engine `ctl`) accepts for one event of the control stream when the
+    table leaves the alternatives `r`; `isReset` = the control stream had been reset when the endpoint
+    came to look at the batch of events this one belongs to (`ctlPhase`: the events of the bytes that
+    arrived since the last quiescence point; an event judged before is never judged again).
+    * no such reset ⇒ exactly the table's alternatives: the frame's own error and nothing else;
+    * a reset ⇒ at most ONE alternative is added, it is H3_CLOSED_CRITICAL_STREAM, and it is added only
+      where the table demands an error anyway (every alternative of `r` is an error): no error is never
+      added, another code is never added. -/
+theorem C04_reset_overtakes_only_unseen_frames (isReset : Bool) (x : SpecSt) (r : List SpecSt) :
+    (isReset = false → overtaken isReset x r = r) ∧
+    (∀ y ∈ overtaken isReset x r, y ∈ r ∨
+      (isReset = true ∧ y.dead = some H3_CLOSED_CRITICAL_STREAM ∧ ∀ z ∈ r, z.dead.isSome = true)) := by
+  constructor
+  · intro h; subst h; simp [overtaken]
+  · intro y hy
+    unfold overtaken at hy
+    split at hy
+    · rename_i hc
+      simp only [Bool.and_eq_true, List.all_eq_true] at hc
+      rcases List.mem_append.mp hy with h | h
+      · exact Or.inl h
+      · right
+        refine ⟨hc.1.1, ?_, hc.1.2⟩
+        simp only [List.mem_singleton] at h
+        subst h; rfl
+    · exact Or.inl hy
+
+/-- the codes the oracle accepts after the given ops (server, no grease, unlimited credit) -/
+def deadAfter (ops : List Op) : List (Option Nat) :=
+  let rc : RunCfg := { server := true }
+  let sp0 : SpecSt := { rc := rc, env := OwnNet.init rc }
+  ((runSpec ((specSetup sp0).map fun x => (x, {})) ops).map fun (s, _) => s.dead).eraseDups
+
+-- non-vacuity, on whole lines of engine `ctl` (the witness pair of R-04d has these bytes): SETTINGS and a
+-- second SETTINGS, then RESET, all before the endpoint looks ⇒ H3_FRAME_UNEXPECTED or
+-- H3_CLOSED_CRITICAL_STREAM ...
+example : deadAfter [.openS 2, .chunk 2 [0, 4, 0, 4, 0], .reset 2 7, .api "AL"] = [some 0x0105, some 0x0104] := by
+  decide +kernel
+-- ... the endpoint looked between the second SETTINGS and the RESET (the accept loop runs: the driver is
+-- polled to quiescence after every op) ⇒ H3_FRAME_UNEXPECTED only ...
+example : deadAfter [.openS 2, .api "AL", .chunk 2 [0, 4, 0, 4, 0], .reset 2 7] = [some 0x0105] := by
+  decide +kernel
+example : deadAfter [.openS 2, .chunk 2 [0, 4, 0, 4, 0], .api "A", .reset 2 7] = [some 0x0105] := by
+  decide +kernel
+-- ... no reset ⇒ the frame's own error only; a reset alone ⇒ H3_CLOSED_CRITICAL_STREAM only
+example : deadAfter [.openS 2, .chunk 2 [0, 4, 0, 4, 0], .fin 2, .api "AL"] = [some 0x0105] := by
+  decide +kernel
+example : deadAfter [.openS 2, .chunk 2 [0, 4, 0], .reset 2 7, .api "AL"] = [some 0x0104] := by
+  decide +kernel
+-- reading R-04e on a whole line: the peer's QPACK encoder stream FINed ⇒ H3_CLOSED_CRITICAL_STREAM or nothing
+example : deadAfter [.openS 2, .chunk 2 [0, 4, 0], .openS 6, .chunk 6 [2], .fin 6, .api "AL"] = [some 0x0104, none] := by
+  decide +kernel
+-- ... and what else the line demands stays demanded: a second SETTINGS after the RESET of the encoder stream
+example : deadAfter [.openS 2, .chunk 2 [0, 4, 0], .api "AL", .openS 6, .chunk 6 [2], .reset 6 3, .chunk 2 [4, 0]] =
+    [some 0x0104, some 0x0105] := by
+  decide +kernel
+-- frame type 0x41 (`40 41`): no opinion on the alternative that went past it, but an error demanded
+-- BEFORE it stays demanded (second SETTINGS, then 0x41)
+example : deadAfter [.openS 2, .chunk 2 [0, 4, 0, 4, 0, 0x40, 0x41, 0], .api "AL"] = [some 0x0105] := by
+  decide +kernel
+example : ((runSpec ((specSetup { rc := { server := true }, env := OwnNet.init { server := true } }).map fun x => (x, {}))
+    [.openS 2, .chunk 2 [0, 4, 0, 0x40, 0x41, 0], .api "AL"]).map fun (s, _) => (s.dead, s.unknown)) =
+    [(some 0x0105, false), (none, true)] := by
+  decide +kernel
+
+end overtaking
+
 
 end H3.Props.C04
